@@ -240,7 +240,10 @@ var c02amps = []c02amp{
 		return c02cff(&cffSpec{privSize: pick3(size, 1<<27, 1<<29, 1<<31-1)})
 	}},
 	{"cff-cid-glyphs-charset-fdselect-ranges", dCFF, func(size int, th bool) []byte {
-		n := pick3(size, 256, 4096, 65535)
+		n := pick3(size, 256, 4096, 50000)
+		if th {
+			n = pick3(size, 256, 4096, 65535)
+		}
 		cs := make([][]byte, n)
 		for i := range cs {
 			cs[i] = []byte{14}
@@ -272,7 +275,7 @@ var c02amps = []c02amp{
 		return c02cff(&cffSpec{cid: true, nFD: 256, subrs: subrs})
 	}},
 	{"cff-encoding-ranges-supplements", dCFF, func(size int, th bool) []byte {
-		n := pick3(size, 16, 100, 256)
+		n := pick3(size, 16, 100, 200)
 		cs := make([][]byte, n)
 		for i := range cs {
 			cs[i] = []byte{14}
@@ -375,18 +378,18 @@ var c02amps = []c02amp{
 		return otClassdefReset(pick3(size, 25, 50, 100))
 	}},
 	{"gsub1-full-coverage-x-k-subtables", dGsub, func(size int, th bool) []byte {
-		k := pick3(size, 8, 40, 200)
+		k := pick3(size, 8, 24, 72)
 		sub := (&bw{}).u16(1, 6, 1).raw(otCoverageFull()...).b // single subst format 1: coverage at 6, delta 1
 		return otTable(otLookupFanout(1, k, sub))
 	}},
 	{"gsub6-chained-context3-full-coverages-x-k", dGsub, func(size int, th bool) []byte {
-		k := pick3(size, 4, 16, 64)
+		k := pick3(size, 2, 5, 14)
 		// format 3: 2 backtrack, 2 input, 2 lookahead coverages, all the same full-range table
-		sub := (&bw{}).u16(3, 2, 20, 20, 2, 20, 20, 2, 20, 20, 0).raw(otCoverageFull()...).b
+		sub := (&bw{}).u16(3, 2, 22, 22, 2, 22, 22, 2, 22, 22, 0).raw(otCoverageFull()...).b
 		return otTable(otLookupFanout(6, k, sub))
 	}},
 	{"gpos2.2-full-classdefs-x-k-subtables", dGpos, func(size int, th bool) []byte {
-		k := pick3(size, 8, 40, 200)
+		k := pick3(size, 4, 9, 30)
 		cd := (&bw{}).u16(2, 1, 0, 0xFFFF, 1).b // every glyph in class 1
 		sub := &bw{}
 		sub.u16(2, 16, 0, 0, 26, 26, 2, 2) // coverage at 16, no value records, classdefs at 26, 2x2 classes
@@ -404,7 +407,7 @@ var c02amps = []c02amp{
 		return otTable(otLookupFanout(5, k, sub.b))
 	}},
 	{"gsub4-componentCount-0", dGsub, func(size int, th bool) []byte {
-		m := pick3(size, 200, 800, 3200)
+		m := pick3(size, 100, 400, 1600)
 		w := &bw{}
 		// ligature subst: coverage, 1 ligature set with m ligature offsets that all
 		// point at one ligature record with componentCount = 0 (read as 65535 components)
@@ -418,17 +421,17 @@ var c02amps = []c02amp{
 		w.b = append(w.b, make([]byte, 2*65535)...)
 		return otTable(otLookupFanout(4, 1, w.b))
 	}},
-	{"gsub5-seqrule-glyphCount-0", dGsub, func(size int, th bool) []byte {
-		m := pick3(size, 200, 800, 3200)
+	{"gsub5-shared-seqrule-65535-glyphs", dGsub, func(size int, th bool) []byte {
+		m := pick3(size, 100, 400, 1600)
 		w := &bw{}
-		// context format 1: 1 rule set with m rule offsets to one rule with glyphCount = 0
+		// context format 1: 1 rule set with m rule offsets to one rule with glyphCount = 65535
 		w.u16(1, 8, 1, 14)
 		w.u16(1, 1, 5)
 		w.u16(m)
 		for i := 0; i < m; i++ {
 			w.u16(2 + 2*m)
 		}
-		w.u16(0, 0) // glyphCount = 0, seqLookupCount = 0
+		w.u16(0xFFFF, 0) // glyphCount = 65535, seqLookupCount = 0
 		w.b = append(w.b, make([]byte, 2*65535)...)
 		return otTable(otLookupFanout(5, 1, w.b))
 	}},
@@ -480,7 +483,7 @@ var c02amps = []c02amp{
 		return otTable(otLookupFanout(4, k, w.b))
 	}},
 	{"gdef-k-markglyphsets-full-coverage", dGdef, func(size int, th bool) []byte {
-		k := pick3(size, 8, 40, 200)
+		k := pick3(size, 8, 24, 72)
 		w := &bw{}
 		w.u16(1, 2, 0, 0, 0, 0, 14)
 		w.u16(1, k)
@@ -550,7 +553,7 @@ var c02amps = []c02amp{
 		return w.b
 	}},
 	{"name-records-sharing-one-long-string", dName, func(size int, th bool) []byte {
-		n := pick3(size, 250, 1000, 4000)
+		n := pick3(size, 25, 100, 400)
 		w := &bw{}
 		w.u16(0, n, 6+12*n)
 		for i := 0; i < n; i++ {
@@ -605,7 +608,10 @@ var c02amps = []c02amp{
 		return c02packGlyf(w.b, loca, 1)
 	}},
 	{"hmtx-long-metrics", dHmtx, func(size int, th bool) []byte {
-		n := pick3(size, 1000, 8000, 65535)
+		n := pick3(size, 1000, 8000, 60000)
+		if th {
+			n = pick3(size, 1000, 8000, 65535)
+		}
 		hh := (&bw{}).u32(0x00010000).u16(800, 0xFF38, 0, 1000, 0, 0, 1000, 1, 0, 0, 0, 0, 0, 0, 0, n).b
 		return c02packHmtx(hh, make([]byte, 4*n))
 	}},
@@ -620,7 +626,10 @@ var c02amps = []c02amp{
 		return w.b
 	}},
 	{"sfnt-empty-glyphs", dSfnt, func(size int, th bool) []byte {
-		n := pick3(size, 1000, 8000, 65535)
+		n := pick3(size, 1000, 8000, 60000)
+		if th {
+			n = pick3(size, 1000, 8000, 65535)
+		}
 		hd := (&bw{}).u32(0x00010000, 0x00010000, 0, 0x5F0F3CF5).u16(0, 1000).u32(0, 0, 0, 0).u16(0, 0, 0, 0, 0, 8, 2, 0, 0).b
 		mx := (&bw{}).u32(0x00010000).u16(n, 0, 0, 0, 0, 1, 0, 0, 0, 0, 0, 0, 0, 0).b
 		hh := (&bw{}).u32(0x00010000).u16(800, 0xFF38, 0, 1000, 0, 0, 1000, 1, 0, 0, 0, 0, 0, 0, 0, 1).b
